@@ -1,3 +1,4 @@
+import OpacusLean.Lemmas.GdpMono
 import OpacusLean.Lemmas.AcctHistoryRle
 import OpacusLean.Lemmas.RdpMonoQ
 import OpacusLean.Lemmas.GdpReal
@@ -277,5 +278,53 @@ theorem mu_mono {n n' : ℕ} {s s' q q' : ℝ} (hn : n ≤ n') (hq0 : 0 ≤ q) (
   calc muPoisson n s q ≤ muPoisson n' s q := muPoisson_mono_steps hn s hq0
     _ ≤ muPoisson n' s q' := muPoisson_mono_q n' s hq
     _ ≤ muPoisson n' s' q' := muPoisson_antitone_sigma n' hs hss (le_trans hq0 hq)
+
+/-! ## GDP: uniqueness and monotonicity of the root `eps_from_mu` solves for -/
+section gdpRoot
+open Opacus.GdpMono
+
+/-- the model's `delta_eps_mu`, instantiated over ℝ with the standard normal CDF -/
+theorem deltaEpsMu_real (ε μ : ℝ) : deltaEpsMu Phi ε μ = D Phi ε μ := rfl
+
+/-- **GDP: the ε that `eps_from_mu` solves for is unique** (so "a root, checked by its residual" pins the
+value down) -/
+theorem gdp_eps_unique {μ δ ε₁ ε₂ : ℝ} (hμ : μ ≠ 0)
+    (h1 : rootResidual Phi μ δ ε₁ = 0) (h2 : rootResidual Phi μ δ ε₂ = 0) : ε₁ = ε₂ := by
+  have e1 : D Phi ε₁ μ = δ := by have := h1; unfold rootResidual at this; rw [deltaEpsMu_real] at this; exact sub_eq_zero.mp this
+  have e2 : D Phi ε₂ μ = δ := by have := h2; unfold rootResidual at this; rw [deltaEpsMu_real] at this; exact sub_eq_zero.mp this
+  exact Opacus.GdpMono.root_unique gaussLike_Phi hμ e1 e2
+
+/-- **GDP: ε is non-increasing in δ** -/
+theorem gdp_eps_antitone_delta {μ δ δ' ε ε' : ℝ} (hμ : μ ≠ 0) (hd : δ ≤ δ')
+    (h1 : rootResidual Phi μ δ ε = 0) (h2 : rootResidual Phi μ δ' ε' = 0) : ε' ≤ ε := by
+  have e1 : D Phi ε μ = δ := by have := h1; unfold rootResidual at this; rw [deltaEpsMu_real] at this; exact sub_eq_zero.mp this
+  have e2 : D Phi ε' μ = δ' := by have := h2; unfold rootResidual at this; rw [deltaEpsMu_real] at this; exact sub_eq_zero.mp this
+  exact Opacus.GdpMono.eps_antitone_delta gaussLike_Phi hμ e1 e2 hd
+
+/-- **GDP: ε is non-decreasing in the number of steps and in the sample rate, non-increasing in the noise
+multiplier** – through `mu` (`mu_mono`) and the strict monotonicity of the Gaussian-DP curve in `μ` -/
+theorem gdp_eps_mono {n n' : ℕ} {s s' q q' δ ε ε' : ℝ} (hn : n ≤ n') (hq0 : 0 ≤ q) (hq : q ≤ q') (hs : 0 < s')
+    (hss : s' ≤ s) (hpos : 0 < muPoisson n s q)
+    (h1 : rootResidual Phi (muPoisson n s q) δ ε = 0)
+    (h2 : rootResidual Phi (muPoisson n' s' q') δ ε' = 0) : ε ≤ ε' := by
+  have e1 : D Phi ε (muPoisson n s q) = δ := by
+    have := h1; unfold rootResidual at this; rw [deltaEpsMu_real] at this; exact sub_eq_zero.mp this
+  have e2 : D Phi ε' (muPoisson n' s' q') = δ := by
+    have := h2; unfold rootResidual at this; rw [deltaEpsMu_real] at this; exact sub_eq_zero.mp this
+  exact Opacus.GdpMono.eps_mono_mu gaussLike_Phi hpos (mu_mono hn hq0 hq hs hss) e1 e2
+
+/-- premises satisfiable: `mu > 0` for a real configuration, and the curve does take every value between
+its limits – here simply: at `ε = 0` the residual for `δ = δ(0, μ)` vanishes -/
+example : 0 < muPoisson 100 (1 : ℝ) (1 / 100) ∧
+    rootResidual Phi (muPoisson 100 (1 : ℝ) (1 / 100)) (D Phi 0 (muPoisson 100 (1 : ℝ) (1 / 100))) 0 = 0 := by
+  refine ⟨?_, ?_⟩
+  · rw [mu_formula]
+    have : (0 : ℝ) < Real.exp (1 / (1 * 1)) - 1 := by
+      have := Real.add_one_lt_exp (show (1 / (1 * 1) : ℝ) ≠ 0 by norm_num)
+      linarith
+    positivity
+  · unfold rootResidual; rw [deltaEpsMu_real]; ring
+
+end gdpRoot
 
 end Opacus.C12
